@@ -1,9 +1,10 @@
 (* C12 - AUTO_INCREMENT values are unique and increasing.
    Property theorems only.  Model/AutoInc.v is the hand-written model of the counter handling in
    src/database/dml/insert.rs; [trace h] lists every (id, generated?) a history h of INSERT
-   statements (any mix of NULL / explicit ids, any statement failing at any row), DELETEs,
-   BEGIN / COMMIT / ROLLBACK and reopen cycles writes into the column, [counter h] is the header
-   counter afterwards, [known_class h] names the recorded defect regime h enters first (0 = none). *)
+   statements (any mix of NULL / explicit ids, any statement failing at any row), insert_cached /
+   insert_batch calls (Bulk), DELETEs, BEGIN / COMMIT / ROLLBACK and reopen cycles writes into the
+   column, [counter h] is the header counter afterwards, [known_class h] names the recorded defect
+   regime h enters first (0 = none). *)
 From Coq Require Import ZArith List Bool.
 From TV Require Import Lib.MachInt Model.AutoInc Proof.AutoInc.
 Import ListNotations.
@@ -32,9 +33,9 @@ Theorem autoinc_other_ops_irrelevant :
 Proof. exact autoinc_other_ops_irrelevant_l. Qed.
 
 (* one row per INSERT statement (with or without explicit id, failing or not): the property holds
-   unless the counter runs past i64::MAX *)
+   unless the counter runs past i64::MAX or a bulk path brings in an id above the counter *)
 Theorem autoinc_single_row_statements :
-  forall h, single_row h -> known_class h <> 3 -> fresh_increasing (trace h).
+  forall h, single_row h -> known_class h <> 3 -> known_class h <> 4 -> fresh_increasing (trace h).
 Proof. exact autoinc_single_row_statements_l. Qed.
 
 (* the checker run on the implementation's observed ids decides exactly the property *)
@@ -42,10 +43,11 @@ Theorem fresh_increasing_chk_correct :
   forall tr, fresh_increasing_chk tr = true <-> fresh_increasing tr.
 Proof. exact fresh_increasing_chk_correct_l. Qed.
 
-(* the three recorded classes do break the property on the model (witnesses re-run on the real code):
+(* the four recorded classes do break the property on the model (witnesses re-run on the real code):
    1  INSERT (id) VALUES (NULL),(2),(NULL)            -> ids 1, 2, 2
    2  INSERT of two rows failing at the second, then INSERT -> id 1 generated twice
-   3  after an explicit i64::MAX the next generated id is i64::MIN *)
+   3  after an explicit i64::MAX the next generated id is i64::MIN
+   4  id 3 written by insert_cached / insert_batch, then generated again *)
 Theorem autoinc_refuted_explicit_ahead :
   exists h, known_class h = 1 /\ trace h = [(1, true); (2, false); (2, true)] /\ ~ fresh_increasing (trace h).
 Proof. exact autoinc_refuted_explicit_ahead_l. Qed.
@@ -60,15 +62,21 @@ Theorem autoinc_refuted_i64_wrap :
     ~ fresh_increasing (trace h).
 Proof. exact autoinc_refuted_i64_wrap_l. Qed.
 
+Theorem autoinc_refuted_bulk_explicit :
+  exists h, known_class h = 4 /\ trace h = [(1, true); (3, false); (2, true); (3, true)] /\ ~ fresh_increasing (trace h).
+Proof. exact autoinc_refuted_bulk_explicit_l. Qed.
+
 (* non-vacuity: a history with explicit ids, a mixed statement, a failing statement, a delete, a
-   rolled-back transaction and a reopen lies outside every class and generates 1,2,3,11,12,13,14 *)
+   rolled-back transaction, a reopen and a bulk insert of ids the counter already passed lies
+   outside every class and generates 1,2,3,11,12,13,14 *)
 Example c12_witness :
   let h := [Insert [RNull; RNull] None; Insert [RNull; RInt 10; RInt 4] None; Delete;
             Insert [RNull; RInt 7] (Some 0%nat); TxBegin; Insert [RNull; RNull] None; TxRollback;
-            Reopen; Insert [RInt 12; RNull] (Some 1%nat); Insert [RNull] None; Insert [RNull] None] in
+            Reopen; Insert [RInt 12; RNull] (Some 1%nat); Insert [RNull] None;
+            Bulk [RNull; RInt 5; RInt (-2)] None; Insert [RNull] None] in
   known_class h = 0 /\ counter h = 14 /\
   trace h = [(1, true); (2, true); (3, true); (10, false); (4, false); (11, true); (12, true);
-             (12, false); (13, true); (14, true)] /\
+             (12, false); (13, true); (5, false); (-2, false); (14, true)] /\
   fresh_increasing_chk (trace h) = true /\ single_row [Insert [RNull] None; Delete; Insert [RInt 5] None].
 Proof.
   vm_compute. repeat split.
@@ -79,11 +87,12 @@ Check autoinc_fresh_increasing : forall h, known_class h = 0 -> fresh_increasing
 Check autoinc_counter_dominates : forall h, known_class h = 0 -> forall v b, In (v, b) (trace h) -> v <= counter h.
 Check autoinc_no_wrap : forall h, known_class h = 0 -> forall g, In (g, true) (trace h) -> 1 <= g < 2 ^ 63.
 Check autoinc_other_ops_irrelevant : forall h, trace h = trace (filter is_insert h) /\ counter h = counter (filter is_insert h).
-Check autoinc_single_row_statements : forall h, single_row h -> known_class h <> 3 -> fresh_increasing (trace h).
+Check autoinc_single_row_statements : forall h, single_row h -> known_class h <> 3 -> known_class h <> 4 -> fresh_increasing (trace h).
 Check fresh_increasing_chk_correct : forall tr, fresh_increasing_chk tr = true <-> fresh_increasing tr.
 Check autoinc_refuted_explicit_ahead : exists h, known_class h = 1 /\ trace h = [(1, true); (2, false); (2, true)] /\ ~ fresh_increasing (trace h).
 Check autoinc_refuted_failed_statement : exists h, known_class h = 2 /\ trace h = [(1, true); (1, true)] /\ ~ fresh_increasing (trace h).
 Check autoinc_refuted_i64_wrap : exists h, known_class h = 3 /\ trace h = [(1, true); (9223372036854775807, false); (-9223372036854775808, true)] /\ ~ fresh_increasing (trace h).
+Check autoinc_refuted_bulk_explicit : exists h, known_class h = 4 /\ trace h = [(1, true); (3, false); (2, true); (3, true)] /\ ~ fresh_increasing (trace h).
 
 Print Assumptions autoinc_fresh_increasing.
 Print Assumptions autoinc_counter_dominates.
@@ -94,3 +103,4 @@ Print Assumptions fresh_increasing_chk_correct.
 Print Assumptions autoinc_refuted_explicit_ahead.
 Print Assumptions autoinc_refuted_failed_statement.
 Print Assumptions autoinc_refuted_i64_wrap.
+Print Assumptions autoinc_refuted_bulk_explicit.
